@@ -38,6 +38,13 @@ class Record:
         body = ", ".join(f"{k}={v!r}" for k, v in self.__dict__.items() if k != "_cls")
         return f"{self._cls}({body})"
 
+    def __iter__(self):
+        # a rule's model object may be iterable (a database cursor): it says so by carrying an `__iter__` callable
+        f = self.__dict__.get("__iter__")
+        if f is None:
+            raise Unsupported(f"record {self._cls} is not iterable")
+        return iter(f())
+
 
 class _Return(Exception):
     def __init__(self, v: Any):
